@@ -773,6 +773,41 @@ Section Model.
           end
     end.
 
+  (* ---- the same program written inside a macro definition -------------------------------------------
+     graph_creator writes the steps on the macro's input nodes (UserInput children that hold no data
+     yet, so nothing runs while the graph is defined); macro.run() then runs every child, and the
+     macro's output is the channel of the returned node *)
+  Fixpoint build (st : state) (results : list (option nat)) (ss : list step)
+    : state * list (option nat) :=
+    match ss with
+    | [] => (st, results)
+    | s :: rest =>
+        let '(st1, er, _) := eval_step st results s in
+        build st1 (results ++ [match er with ENode n => Some n | _ => None end]) rest
+    end.
+
+  Fixpoint run_children (st : state) (k : nat) (todo : nat) : state * bool :=
+    match todo with
+    | O => (st, true)
+    | S t =>
+        match pull st k with
+        | (st1, PVal _) => run_children st1 (S k) t
+        | (st1, _) => (st1, false)
+        end
+    end.
+
+  Definition run_macro (users : list urec) (ss : list step) (out : nat) : obs :=
+    let '(st, results) := build (mkS true users [] None) [] ss in
+    let '(st1, ok) := run_children st 0 (List.length (s_nodes st)) in
+    match ok, nth_error results out with
+    | true, Some (Some n) =>
+        match chan_value st1 (CN n) with
+        | Some v => OL [OS "val"; vobs v]
+        | None => OL [OS "err"]
+        end
+    | _, _ => OL [OS "err"]
+    end.
+
   Definition run_case (parent : bool) (users : list urec) (ss : list step) : obs :=
     OL (exec (mkS parent users [] None) [] false ss).
 
@@ -840,3 +875,7 @@ Definition t_run (t : list pyrow) (strs reprs : list (string * string)) (parent 
 Definition t_run_clear (t : list pyrow) (strs reprs : list (string * string)) (parent : bool)
            (users : list (urec tval)) (ss : list (step tval)) : obs :=
   run_case tval (tbl_pyop t) (tbl_str strs) (tbl_str reprs) "NoneType:None" (fun s => s) OS OS parent users ss.
+
+Definition t_macro (t : list pyrow) (strs reprs : list (string * string))
+           (users : list (urec tval)) (ss : list (step tval)) (out : nat) : obs :=
+  run_macro tval (tbl_pyop t) (tbl_str strs) (tbl_str reprs) "NoneType:None" (fun s => s) OS users ss out.
